@@ -243,6 +243,18 @@ impl SubCheck for Invert {
                 }
             }};
         }
+        // item-level route: borrowed and owned items read the same fields and leave the same remainder
+        {
+            use chrono::format::{Item, Parsed, StrftimeItems};
+            let borrowed: Vec<Item> = StrftimeItems::new(fmt).collect();
+            let owned: Vec<Item<'static>> = borrowed.iter().cloned().map(Item::to_owned).collect();
+            let (mut p1, mut p2) = (Parsed::new(), Parsed::new());
+            let r1 = call("format::parse_and_remainder", || chrono::format::parse_and_remainder(&mut p1, &input, borrowed.iter()).map(|r| r.to_string()))?;
+            let r2 = call("format::parse_and_remainder (owned items)", || chrono::format::parse_and_remainder(&mut p2, &input, owned.iter()).map(|r| r.to_string()))?;
+            ensure_eq!(r2, r1, "{what}: remainder through owned items vs borrowed items");
+            ensure_eq!(p2, p1, "{what}: fields through owned items vs borrowed items");
+            ensure_eq!(r1.as_deref().ok(), Some(suffix), "{what}: remainder of the item-level parser");
+        }
         match v.kind {
             0 => run!(NaiveDate, v.day, |d: &NaiveDate| conv::unix_day_of(*d)),
             1 => run!(NaiveTime, et, |t: &NaiveTime| T::of(t)),
@@ -252,7 +264,16 @@ impl SubCheck for Invert {
                 run!(DateTime<FixedOffset>, ((eu.day, eu.secs, eu.frac), v.off), |d: &DateTime<FixedOffset>| {
                     let n = d.naive_utc();
                     ((conv::unix_day_of(n.date()), n.num_seconds_from_midnight(), n.nanosecond()), d.offset().local_minus_utc())
-                })
+                });
+                // the zone-generic reader: the same instant in a zone that has the parsed offset
+                if c.suffix.is_none() {
+                    use chrono::TimeZone;
+                    let fo = FixedOffset::east_opt(v.off).ok_or("harness: offset")?;
+                    #[allow(deprecated)]
+                    let z = call("TimeZone::datetime_from_str", || fo.datetime_from_str(&input, fmt))?.map_err(|e| format!("{what} via FixedOffset::datetime_from_str = Err({e:?})"))?;
+                    let n = z.naive_utc();
+                    ensure_eq!(((conv::unix_day_of(n.date()), n.num_seconds_from_midnight(), n.nanosecond()), z.offset().local_minus_utc()), ((eu.day, eu.secs, eu.frac), v.off), "{what} via TimeZone::datetime_from_str");
+                }
             }
         }
         Ok(())
